@@ -33,7 +33,8 @@ def input_iterator_with_fixed_sum(
             _inp[idx] = False ^ _negations[idx]
         for idx in indexes:
             _inp[idx] = True ^ _negations[idx]
-        yield _inp
+        # yield a fresh list: consumers may keep a reference to a previous value
+        yield list(_inp)
 
 
 def order_list(
